@@ -135,6 +135,9 @@ type Config struct {
 	StarveName  string
 	StarveSteps uint64
 	MapPerm     bool // permute map iteration order from the PRNG
+	// PreemptUnlock: releasing a lock is a scheduling point too (a goroutine that was waiting for the lock may run its
+	// critical section before the releaser's next plain statement). Off: the releaser runs on to its next operation.
+	PreemptUnlock bool
 	MaxSteps    uint64
 	Trace       bool // keep a textual trace
 	Debug       bool // verify goroutine identity at every trap
@@ -398,6 +401,9 @@ var (
 	opYield    Op = nopOp{"yield"}
 	opPostWake Op = nopOp{"postwake"}
 )
+
+// PreemptUnlock reports whether this world makes lock releases scheduling points.
+func PreemptUnlock() bool { return K != nil && K.Cfg.PreemptUnlock }
 
 // Yield is a pure scheduling point.
 func Yield() {
